@@ -15,7 +15,8 @@
 (***************************************************************************)
 EXTENDS Naturals, Sequences, FiniteSets
 
-CONSTANTS Lenient,      \* TRUE for AtomBase: its logical_and/or short-circuit like Python's and/or
+CONSTANTS PyEq,         \* TRUE while `==`/`!=` between two non-atoms is object comparison (open finding eq-nonatom-sides; fixed by d5a5366)
+          Lenient,      \* TRUE for AtomBase: its logical_and/or short-circuit like Python's and/or
           Atoms,        \* atom tokens the atom constructor accepts
           BadAtoms,     \* atom tokens on which the atom constructor raises
           OpTable,      \* set of operator tokens present in the solver's operator table
@@ -84,7 +85,7 @@ Binary(sym, l0, r0) ==
   LET gl == GetLeft(l0)  gr == GetRight(r0)
   IN IF IsTree(gl.v) /\ IsTree(gr.v)
      THEN St(Append(gl.l, T(<<sym>> \o gl.v.tr \o gr.v.tr)), gr.r)
-     ELSE IF sym \in {"==", "!="} /\ ~IsTree(gl.v) /\ ~IsTree(gr.v)
+     ELSE IF PyEq /\ sym \in {"==", "!="} /\ ~IsTree(gl.v) /\ ~IsTree(gr.v)
      THEN St(Append(gl.l, PY), gr.r)
      \* two bare Python booleans: Python computes with them (True ** True = 1, True < False ...);
      \* the result is again a bare Python object, or ZeroDivisionError: PYQ = "python object or raises"
